@@ -70,6 +70,8 @@ var tcpAddrs = []addrT{
 	{"tcp4", "127.0.0.1", true}, {"tcp4", "127.8.9.10", true}, {"tcp6", "::1", true},
 	{"tcp4", "192.0.2.2", false}, {"tcp4", "10.0.0.1", false}, {"tcp4", "128.0.0.1", false}, {"tcp4", "1.127.0.1", false},
 	{"tcp6", "2001:db8::1", false}, {"tcp6", "fe80::1", false}, {"tcp4", "192.0.2.2", false}, {"tcp6", "2001:db8::1", false},
+	// IPv6 link-local peers carry their zone in the canonical URI (what the listeners' on-demand faces get)
+	{"tcp6", "fe80::1%eth0", false}, {"tcp6", "fe80::2:3%lo", false}, {"tcp6", "fe80::1%eth0", false},
 }
 
 var scopeProbes = append(append([]addrT{}, tcpAddrs...),
